@@ -7,7 +7,9 @@ import (
 	"fmt"
 	"go/token"
 	"go/types"
+	"math"
 	"strings"
+	"unicode"
 
 	"golang.org/x/tools/go/ssa"
 )
@@ -211,8 +213,56 @@ func (m *machine) registerEnvReplacements() {
 // preemption points under schedule exploration).  The typed wrappers
 // (atomic.Bool, Int32, Int64, Uint32, Uint64) are interpreted from source and
 // end up here; atomic.Value and atomic.Pointer[T] are modelled on their methods.
+func (m *machine) registerUnicodeIntrinsics() {
+	in := m.intrinsics
+	pred := func(f func(rune) bool) intrinsic {
+		return func(fr *frame, fn *ssa.Function, args []value) value { return f(rune(fr.concInt(args[0], "unicode"))) }
+	}
+	conv := func(f func(rune) rune) intrinsic {
+		return func(fr *frame, fn *ssa.Function, args []value) value {
+			return int32(f(rune(fr.concInt(args[0], "unicode"))))
+		}
+	}
+	for name, f := range map[string]func(rune) bool{
+		"IsUpper": unicode.IsUpper, "IsLower": unicode.IsLower, "IsLetter": unicode.IsLetter, "IsDigit": unicode.IsDigit,
+		"IsNumber": unicode.IsNumber, "IsSpace": unicode.IsSpace, "IsPunct": unicode.IsPunct, "IsPrint": unicode.IsPrint,
+		"IsGraphic": unicode.IsGraphic, "IsControl": unicode.IsControl, "IsSymbol": unicode.IsSymbol, "IsTitle": unicode.IsTitle,
+		"IsMark": unicode.IsMark,
+	} {
+		in["unicode."+name] = pred(f)
+	}
+	for name, f := range map[string]func(rune) rune{
+		"ToUpper": unicode.ToUpper, "ToLower": unicode.ToLower, "ToTitle": unicode.ToTitle, "SimpleFold": unicode.SimpleFold,
+	} {
+		in["unicode."+name] = conv(f)
+	}
+}
+
+func (m *machine) registerMathIntrinsics() {
+	in := m.intrinsics
+	f1 := func(f func(float64) float64) intrinsic {
+		return func(fr *frame, fn *ssa.Function, args []value) value { return f(args[0].(float64)) }
+	}
+	f2 := func(f func(float64, float64) float64) intrinsic {
+		return func(fr *frame, fn *ssa.Function, args []value) value { return f(args[0].(float64), args[1].(float64)) }
+	}
+	for name, f := range map[string]func(float64) float64{
+		"Floor": math.Floor, "Ceil": math.Ceil, "Trunc": math.Trunc, "Round": math.Round, "Sqrt": math.Sqrt, "Abs": math.Abs,
+		"Log": math.Log, "Log2": math.Log2, "Log10": math.Log10, "Exp": math.Exp,
+	} {
+		in["math."+name] = f1(f)
+	}
+	for name, f := range map[string]func(float64, float64) float64{
+		"Max": math.Max, "Min": math.Min, "Mod": math.Mod, "Pow": math.Pow,
+	} {
+		in["math."+name] = f2(f)
+	}
+}
+
 func (m *machine) registerAtomicIntrinsics() {
 	in := m.intrinsics
+	m.registerUnicodeIntrinsics()
+	m.registerMathIntrinsics()
 	a := "sync/atomic."
 	elem := func(fn *ssa.Function) types.Type {
 		return fn.Signature.Params().At(0).Type().Underlying().(*types.Pointer).Elem()
